@@ -183,6 +183,12 @@ func classifyVerdict(w *World, tb *TB, r0, r1 ssa.Value, conds []Cond, sentinels
 		if isNilConst(r1) {
 			return ""
 		}
+		// a named error result that is known to be nil where the verdict is accepted: tested == nil on the way
+		for _, at := range atomsOf(conds) {
+			if at.Op == token.EQL && ((at.X == r1 && isNilConst(at.Y)) || (at.Y == r1 && isNilConst(at.X))) {
+				return ""
+			}
+		}
 		return "returns (true, " + tb.Of(r1).String() + "): an accepting verdict together with a possibly non-nil error"
 	}
 	// false: the error must be provably non-nil
@@ -474,6 +480,18 @@ func init() {
 			ef := NewEffects(tb)
 			ruleVerdictPairing(c, w, tb, ef, "R13.1")
 			ruleNoDisclosure(c, w, "R13.2")
+			// a failure cause that nobody looks at cannot become the (false, error) verdict: no error result of a call
+			// in the library is overwritten or dropped unread
+			{
+				var lf []*ssa.Function
+				for _, f := range w.ModuleFuncs(OtpPath) {
+					if f.Blocks != nil && !isInit(f) && !strings.HasPrefix(f.Name(), "Control") {
+						lf = append(lf, f)
+					}
+				}
+				sortFuncs(lf)
+				ruleErrorsUsed(c, w, "R13.3", lf)
+			}
 			if w.Cfg.Name == CfgNative.Name {
 				runControl(c, "R13.1", []string{"ControlBadVerdict|"}, func(sink *Check, cw *World) {
 					ctb := NewTB(cw)
@@ -482,6 +500,7 @@ func init() {
 			}
 			c.Floor("R13.1", 12)
 			c.Floor("R13.2", 30)
+			c.Floor("R13.3", 20)
 		},
 	})
 }
